@@ -1048,7 +1048,7 @@ impl Ctx {
                     }
                     return;
                 }
-                Out::Compile(m) if m.contains("maximum number of registers") => {
+                Out::Compile(m) if m.contains("maximum number of registers") || m.contains("too many locals") => {
                     // a generated program with more than 255 locals in one frame: the compiler's
                     // documented limit (an error, as C05 demands), not a type-hint matter
                     self.rep.bump("skipped: program exceeds the register limit of a frame");
@@ -3226,14 +3226,18 @@ fn main() {
 
     // witnesses of listed findings that are plain scripts with an expected error line
     for e in cx.rep.known_open() {
-        if e["id"].as_str() == Some("F-C16-5") {
-            if let Some(w) = e["witness"].as_str() {
-                let (out, _, _) = run_koto(w, true);
-                if out == Out::Err("expected Iterable, found Foo".into()) {
-                    cx.rep.known("F-C16-5", "`Iterable` still rejects a map with a metamap that `for` iterates");
-                } else {
-                    cx.rep.note(format!("F-C16-5: witness no longer fails ({:?})", out));
-                }
+        let id = e["id"].as_str().unwrap_or("").to_string();
+        let (line, what) = match id.as_str() {
+            "F-C16-5" => ("expected Iterable, found Foo", "`Iterable` still rejects a map with a metamap that `for` iterates"),
+            "F-C16-7" => ("expected Indexable, found Range", "`Indexable` still rejects a range although `r[0]` works"),
+            _ => continue,
+        };
+        if let Some(w) = e["witness"].as_str() {
+            let (out, _, _) = run_koto(w, true);
+            if out == Out::Err(line.into()) {
+                cx.rep.known(&id, what);
+            } else {
+                cx.rep.note(format!("{}: witness no longer fails ({:?})", id, out));
             }
         }
     }
